@@ -165,7 +165,7 @@ func runC13(r *Report) {
 				continue
 			}
 			for _, p := range f.Params {
-				if p.Name() != "ttl" || p.Type().String() != "time.Duration" {
+				if canonParamName(p) != "ttl" || p.Type().String() != "time.Duration" {
 					continue
 				}
 				checkTTLUses(r, f, p)
@@ -501,7 +501,7 @@ func checkTTLUses(r *Report, f *ssa.Function, p *ssa.Parameter) {
 				if c.Fn != nil && c.Fn.Pkg == f.Pkg {
 					pass := false
 					for _, q := range c.Fn.Params {
-						if q.Name() == "ttl" {
+						if canonParamName(q) == "ttl" {
 							pass = true
 						}
 					}
@@ -780,7 +780,7 @@ func checkValueExpiryTogether(r *Report, rule string) int {
 	for _, f := range r.P.FuncsIn(memPkg) {
 		hasTTL := false
 		for _, p := range f.Params {
-			if p.Name() == "ttl" && p.Type().String() == "time.Duration" {
+			if canonParamName(p) == "ttl" && p.Type().String() == "time.Duration" {
 				hasTTL = true
 			}
 		}
@@ -843,7 +843,7 @@ func checkRedisExpirations(r *Report, rule string) int {
 	for _, f := range r.P.FuncsIn(redisPkg) {
 		var ttl *ssa.Parameter
 		for _, p := range f.Params {
-			if p.Name() == "ttl" && p.Type().String() == "time.Duration" {
+			if canonParamName(p) == "ttl" && p.Type().String() == "time.Duration" {
 				ttl = p
 			}
 		}
